@@ -49,6 +49,8 @@ class CallMixin:
                 if isinstance(fv, Fn):
                     return self.call_fn(fv, node, st, nested)
                 raise VCError("call of non-function variable %s at line %d" % (nm, node.lineno))
+            if self.spec and nm in self.abstract_macros:
+                return [(st, self.spec_abstract(nm, node, st))]
             if self.spec and nm in self.SPEC_FUNCS:
                 return [(st, getattr(self, "spec_" + nm)(node, st))]
             if self.spec and nm in st.ghost and isinstance(st.ghost[nm], z3.FuncDeclRef):
@@ -112,6 +114,8 @@ class CallMixin:
         for a in node.args:
             if isinstance(a, ast.Starred):
                 v = self.eval(a.value, st)
+                if isinstance(v, Opaque):
+                    continue  # opaque extra arguments passed through to a function parameter
                 if not isinstance(v, Tup):
                     raise VCError("*args of non-tuple at line %d" % node.lineno)
                 args.extend(v.items)
